@@ -5,7 +5,7 @@ import random
 from collections import Counter
 
 from .. import gen
-from ..tools import run_sync_side, run_async_side, first_diff, strip_close
+from ..tools import run_sync_side, run_async_side, first_diff, strip_close, drop_stdlib_repolls
 
 ID = "C05"
 LEVEL = "exploration"
@@ -13,7 +13,8 @@ ANCHORS = ["builtins.py", "itertools.py", "heapq.py"]
 RULE = ("the interleaved event log (consumer step, pull(src,pos), end(src), call(fn,args), yield(item), termination) "
         "of each async tool driven step by step is compared for equality with the log of the stdlib twin on sync "
         "twins of the same probes; enumerated islice/batched/length-vector spaces plus seeded random specs over all "
-        "tool variants, tee consumption patterns and the short-circuiting aggregations all/any; instrumented source "
+        "tool variants, tee consumption patterns, groupby operation sequences (partial / out-of-order consumption of "
+        "groups, lock-step with itertools.groupby) and the short-circuiting aggregations all/any; instrumented source "
         "flavours sync_iter/sync_gen/getitem_seq/async_gen/async_class, callables def/async def; non-trivial = at "
         "least one pull and (a source ended, or an early exit, or a callable was invoked); distinct = spec+flavours")
 ASSUMPTIONS = ["stdlib 3.12 is the reference; events compared are exactly pulls, end checks, calls, yields",
@@ -27,6 +28,15 @@ FNFL = ["def", "async_def", "callobj"]
 
 
 def cases(tier, seed, shard, nshards):
+    from . import C16
+    n16 = 0
+    for gb in C16.cases(tier, seed, shard, nshards):
+        # groupby under partial / out-of-order consumption: same lock-step executor as C16, judged on the event log
+        n16 += 1
+        if n16 % 4 == 0:
+            if gb["flav"] == "list":
+                gb = dict(gb, flav="async_class")
+            yield {"kind": "groupby", "gb": gb}
     idx = 0
     for spec in gen.enum_iter_specs(small=(tier == "quick")):
         idx += 1
@@ -69,27 +79,11 @@ def classify(spec, exp, got, d):
     return f"{tool}/order"
 
 
-def drop_stdlib_repolls(exp, got):
-    """Remove from the reference log end-detections of a source that had *already* signalled its end,
-    where asyncstdlib does not re-poll (3.12's batched after a short batch, a finished tee child
-    advanced again).  Not re-polling an exhausted source is neither reading ahead nor consuming more;
-    the opposite direction (asyncstdlib polling again) is still reported."""
-    out = []
-    ended = set()
-    j = 0
-    skipped = 0
-    for ev in exp:
-        if ev[0] == "end":
-            if ev[1] in ended and not (j < len(got) and got[j] == ev):
-                skipped += 1
-                continue
-            ended.add(ev[1])
-        out.append(ev)
-        j += 1
-    return out, skipped
-
-
 def run_case(case, stats: Counter):
+    if case.get("kind") == "groupby":
+        from . import C16
+        stats["runs_groupby"] += 1
+        return C16.run_case(case["gb"], stats)
     spec = case["spec"]
     tool = spec["tool"]
     flav = list(case["flav"])[:len(spec["srcs"])] or ["async_class"]
